@@ -828,13 +828,31 @@ def malformed_docs(kind, ref):
         paths["/a"] = {"get": {"operationId": "victim", "tags": ["alpha"], "responses": {"200": _ok(R), "404": _ok({"$ref": SREF + "Err"}, "nf")}}}
         dele = lambda d: d["paths"]["/a"]["get"]["responses"].pop("200")
     else:
-        holder = {"property": {"type": "object", "properties": {"h": R, "n": {"type": "integer"}}},
-                  "items": {"type": "object", "properties": {"l": {"type": "array", "items": R}}},
-                  "union-member": {"type": "object", "properties": {"u": {"anyOf": [R, {"type": "integer"}]}}},
-                  "additional": {"type": "object", "additionalProperties": R},
-                  "allof-member": {"allOf": [R, {"type": "object", "properties": {"extra": {"type": "string"}}}]}}[kind]
+        # The failing holder also uses a healthy schema `Shared`; healthy siblings use `Shared` too (through a property, array items,
+        # additionalProperties, a union member), half of them declared BEFORE the holder and half AFTER it: none of them depends on the holder,
+        # so none may be touched when the holder (and its real dependant `User`) is removed.
+        # (two shared schemas, so that the failing holder is the FIRST user of one of them and a LATER user of the other)
+        SH, SH2 = {"$ref": SREF + "Shared"}, {"$ref": SREF + "Shared2"}
+        both = {"s": SH, "s2": SH2}
+        holder = {"property": {"type": "object", "properties": {**both, "h": R, "n": {"type": "integer"}}},
+                  "items": {"type": "object", "properties": {**both, "l": {"type": "array", "items": R}}},
+                  "union-member": {"type": "object", "properties": {**both, "u": {"anyOf": [R, {"type": "integer"}]}}},
+                  "additional": {"type": "object", "properties": both, "additionalProperties": R},
+                  "allof-member": {"allOf": [R, {"type": "object", "properties": {**both, "extra": {"type": "string"}}}]}}[kind]
+        sibs = lambda sfx, X: {"SibProp" + sfx: {"type": "object", "properties": {"s": X, "n": {"type": "integer"}}},
+                               "SibItems" + sfx: {"type": "object", "properties": {"l": {"type": "array", "items": X}}},
+                               "SibAddl" + sfx: {"type": "object", "additionalProperties": X},
+                               "SibUnion" + sfx: {"type": "object", "properties": {"u": {"anyOf": [X, {"type": "integer"}]}}}}
+        S["Shared"] = {"type": "object", "properties": {"label": {"type": "string"}}}
+        S["Shared2"] = {"type": "object", "properties": {"label2": {"type": "string"}}}
+        S.update(copy.deepcopy(sibs("Before", SH)))
         S["Holder"] = holder
         S["User"] = {"type": "object", "properties": {"holder": {"$ref": SREF + "Holder"}, "w": {"type": "string"}}}      # a dependant of the holder
+        S.update(copy.deepcopy(sibs("After", SH2)))
+        S["SibPropAfter"]["properties"]["t"] = SH            # ... and one later sibling uses both
+        for sfx in ("Before", "After"):
+            paths["/sib" + sfx.lower()] = {"get": {"operationId": "siblings" + sfx, "tags": ["beta"],
+                                                    "responses": {st: _ok({"$ref": SREF + n}) for st, n in zip(["200", "201", "202", "203"], sibs(sfx, SH))}}}
         paths["/a"] = {"get": {"operationId": "victim", "tags": ["alpha"], "responses": {"200": _ok({"$ref": SREF + "Holder"}), "404": _ok({"$ref": SREF + "Err"}, "nf")}}}
         paths["/u"] = {"get": {"operationId": "victimUser", "tags": ["beta"], "responses": {"200": _ok({"$ref": SREF + "User"}), "404": _ok({"$ref": SREF + "Err"}, "nf")}}}
 
